@@ -18,6 +18,9 @@ CLAIMED = {
  "C16": dict(section="5/C16", technique="Lean 4 theorems (Nat division lemmas for the T-aligned windows; injective-hash hypothesis; decide witness for the false clause) + differential correspondence under an injected clock",
     text="Proof: valid_iff / valid_of_lt / invalid_of_ge for every T>0 and t0<=t1 (exact ticks), C16_windows for any injective hash, C16_none (None and 0), C16_separation (acceptance forces equal formatted texts). The property's separation clause at full strength is proved FALSE of the code (C16_separation_full_false, delimiter-free concatenation) and recorded as a known finding; the check reports any other foreign acceptance as a violation.",
     note="Trusted: Lean kernel, model Poor.Token, harness/c16.py (clock injected by rebinding poorwsgi.session.time). Hash injectivity is a theorem hypothesis; float rounding of time()/timeout is not modelled (exact microsecond ticks)."),
+ "C14": dict(section="5/C14", technique="Lean 4 theorems (refinement of the pair list to an ordered multimap keyed by the case-normalised name; UTF-8/latin-1 round trip from core's utf8Decode?_utf8Encode) + differential correspondence after every step",
+    text="Proof: per-operation refinement lemmas (getItem/getAll/delItem/addHeader/setItem/add commute with the abstraction to a key-normalised multimap) and the user-level corollaries (case-insensitive lookups, assignment/deletion affect all entries of the name and nothing else with order preserved, add refuses duplicates except Set-Cookie in any casing, insertion order) for every state, hence after every operation sequence; C14_transcode_bytes/roundtrip for every Unicode string. Tied to headers.py by op-sequence correspondence with the items compared after every step, plus an independent reference multimap as oracle.",
+    note="Trusted: Lean kernel, model Poor.Headers (+ wsgiref _formatparam), harness/c14.py. Names are US-ASCII tokens as the class requires (str.lower modelled as ASCII lower-casing); lone surrogates are outside the model."),
 }
 
 def check(pid):
